@@ -64,7 +64,28 @@ def deref_all(obj):
     return out
 
 
+def _sizes_of(v, depth=0):
+    """Recorded per-field sizes of a parsed structure (and of the structures nested in it), in a comparable form."""
+    from dissect.cstruct import Structure
+
+    out = []
+    sz = getattr(v, "_sizes", None)
+    if isinstance(sz, dict):
+        out.append(tuple(sorted((str(k), int(x)) for k, x in sz.items() if x is not None)))
+    if depth < 3 and isinstance(v, Structure):
+        for f in type(v).__fields__:
+            x = getattr(v, f._name, None)
+            if type(x).__name__ == "UnionProxy":  # (no hasattr/getattr probing: a Pointer's __getattr__ dereferences)
+                x = object.__getattribute__(x, "__target__")
+            if isinstance(x, Structure):
+                out.append((f._name, _sizes_of(x, depth + 1)))
+            elif isinstance(x, list) and x and isinstance(x[0], Structure):
+                out.append((f._name, tuple(_sizes_of(e, depth + 1) for e in x[:3])))
+    return tuple(out)
+
+
 DYN_UNIONS = [
+    "union DU { uint8 n; struct { uint8 n2; char d[n2]; } v; };",
     "union DU { uint8 n; char s[]; };",
     "union DU { uint16 w; char s[]; uint8 b; };",
     "union DU { char s[]; uint32 q; };",
@@ -96,7 +117,7 @@ def dynamic_unions(tier) -> JobResult:
                         s0 = io.BytesIO(pl + TAIL_A)
                         try:
                             v0 = T(s0)
-                            base = (repr(impl.norm(v0)), s0.tell())
+                            base = (repr(impl.norm(v0)), s0.tell(), _sizes_of(v0))
                         except Exception as e:  # noqa: BLE001
                             base = ("exc", type(e).__name__)
                         for p in (1, 2, 5, 16):
@@ -107,7 +128,7 @@ def dynamic_unions(tier) -> JobResult:
                                 res.nontrivial += 1
                                 try:
                                     v = T(stream)
-                                    got = (repr(impl.norm(v)), stream.tell() - p)
+                                    got = (repr(impl.norm(v)), stream.tell() - p, _sizes_of(v))
                                 except Exception as e:  # noqa: BLE001
                                     got = ("exc", type(e).__name__)
                                 if got != base:
@@ -271,6 +292,7 @@ def check_case(names, endian, align, res: JobResult, tier="quick", only_input=No
             n = min(inp.consumed, len(inp.data))
             payload = inp.data[:n]
             expect = inp.value
+            sizes0 = None
             for p in offsets:
                 results = []
                 for junk, tail in ((JUNK_A, TAIL_A), (JUNK_B, TAIL_B)):
@@ -288,6 +310,11 @@ def check_case(names, endian, align, res: JobResult, tier="quick", only_input=No
                             viol("offset:raises", f"payload={payload.hex()} at offset {p} via {kind}: {impl.exc_sig(e)} {e!r}", reader, inp, offset=p, via=kind)
                             continue
                         results.append((kind, got))
+                        sz = _sizes_of(v)
+                        if sizes0 is None:
+                            sizes0 = (p, kind, sz)
+                        elif sz != sizes0[2]:
+                            viol("offset:sizes", f"payload={payload.hex()} at offset {p} via {kind}: recorded sizes {sz}, at offset {sizes0[0]} via {sizes0[1]}: {sizes0[2]}", reader, inp, offset=p, via=kind)
                         if not same(got[0], expect):
                             viol("offset:value", f"payload={payload.hex()} at offset {p} via {kind}: {got[0]} != model {expect}", reader, inp, offset=p, via=kind)
                         elif got[1] != p + inp.consumed:
@@ -389,7 +416,7 @@ def meta(tier):
         "p in {0,1,2,3,5,8,16,17} (multiples of the structure's alignment in aligned mode), two junk fillings before p and after the encoded "
         "extent, streams {BytesIO, minimal read/seek/tell class, BufferedReader}, 11 call forms over bytes/bytearray/memoryview/streams, "
         "and up to 3 consecutive reads on one stream; top-level unions (dynamic, fixed, padded-struct first member) x 14 input kinds / call forms vs parsing a stream; "
-        "terminated arrays of char/uint8/wchar/uint16 of every length 0..69 and around 128..65536 at offsets 0 and 3; oracle = model decode of the payload alone and tell()==p+size; non-trivial = p>0 or a "
+        "terminated arrays of char/uint8/wchar/uint16 of every length 0..69 and around 128..65536 at offsets 0 and 3; oracle = model decode of the payload alone, tell()==p+size and recorded `_sizes` independent of p; non-trivial = p>0 or a "
         "read after an earlier read",
         "bounds": {"definitions": "D(wide,2)+[EOF]" if tier == "quick" else "D(wide,2)+D(core,3)+[EOF]+long-run", "inputs_per_definition": 3 if tier == "quick" else 10},
         "assumptions": ["aligned structures are started at multiples of their own alignment (the statement's 'aligned p')"],
